@@ -165,14 +165,16 @@ def alphabet(model, profile):
             out.append((step, m2))
     # names that collide with the *default* boot catalog names of add_eltorito in one namespace only
     a = ops.add_fp(model.cfg, 'A', '/', 'c1')
-    for mode in ('jonly', 'uonly', 'iso'):
+    for mode in ('jonly', 'uonly') if profile == 'quick' else ('jonly', 'uonly', 'iso'):
         cat = ops.add_fp(model.cfg, 'CAT', '/', 'c1s3', mode)
         if cat is None:
             continue
-        for step in ([cat], [a, cat]):
+        # together with a file that can serve as boot file when there is none yet
+        for step in ([a, cat], [cat]):
             m2 = ops.enabled(model, step)
             if m2 is not None:
                 out.append((step, m2))
+                break
     return out
 
 
